@@ -3,6 +3,7 @@
    reconstruction (see DESIGN.md). *)
 From H263V Require Import base.Prelude spec.SpecRecon model.Types model.Reader model.Header model.Syntax model.Recon model.Decoder proofs.MvSpec.
 From H263V Require Import model.Tables spec.SpecTables proofs.VlcTables proofs.PlaneShape proofs.GatherSpec spec.SpecHeader proofs.BlockRoundTrip proofs.MacroblockRoundTrip proofs.PictureRoundTrip model.F32 proofs.IdctPlacement proofs.IntraPicture proofs.GatherPicture proofs.PredictedPicture proofs.IdctAccuracy proofs.PictureAccuracy.
+From H263V Require Import proofs.EarlyEnd.
 From Coq Require Import Reals.
 Local Open Scope Z_scope.
 
@@ -122,6 +123,49 @@ Theorem C03_predicted_picture : forall o last rp running0 r0 hdr fmt w h fms res
 Proof. exact reconstruct_predicted. Qed.
 
 
+(* EARLY END OF DATA.  The data of a predicted or disposable picture ends (fewer than eight zero padding bits are left) after k of
+   its macroblocks - `loop_short`: the encoded macroblocks do not fill the picture.  Decoding succeeds and stops there; the
+   macroblocks present are reconstructed as in C03_predicted_picture (theorem reconstruct_predicted_early, same statement with
+   the macroblock list padded by predicted macroblocks with the zero vector), and every sample of every macroblock from the
+   k-th on - luma and both chroma planes - is an exact copy of the co-located sample of the reference picture: the padded
+   macroblocks carry the zero vector (prediction = the reference sample itself, `pred_spec_zero`) and their coefficient blocks
+   are still the zero blocks the loop started from (`pure_loop_untouched`: a macroblock only writes its own six blocks). *)
+Theorem C03_early_end_copies_reference : forall o last rp running0 r0 hdr fmt w h fms pad pos st',
+  let v1 := sorenson o && (match version hdr with Some 1 => true | _ => false end) in
+  let running := (if has_plusptype hdr && has_opptype hdr then options hdr
+                  else if has_plusptype hdr then Z.lor (Z.ldiff (options hdr) opptype_options) (Z.land running0 opptype_options)
+                  else Z.lor (Z.ldiff (Z.ldiff (options hdr) opptype_options) mpptype_options) (Z.land running0 (Z.lor opptype_options mpptype_options))) in
+  let mpl := (w + 15) / 16 in let mbh := (h + 15) / 16 in let levw := mpl * 16 in let levh := mbh * 16 in
+  let np := mkDecoded hdr fmt (new_plane w h) (new_plane ((w + 1) / 2) ((h + 1) / 2)) (new_plane ((w + 1) / 2) ((h + 1) / 2)) ((w + 1) / 2) in
+  let st0 := mkLoop (mkReader (enc_fulls false v1 fms ++ pad) pos) (quantizer hdr) [] []
+                    (repeatZ DctZero (levw * levh / 64)) (repeatZ DctZero (levw * levh / 4 / 64)) (repeatZ DctZero (levw * levh / 4 / 64)) in
+  let k := zlength (l_types st') in
+  decode_picture o (match last with Some p => Some (d_header p) | None => None end) r0 = Ok (Some hdr, mkReader (enc_fulls false v1 fms ++ pad) pos) ->
+  (picture_type hdr = PFrame \/ picture_type hdr = DisposablePFrame) -> format hdr = Some fmt -> into_width_and_height fmt = Some (w, h) -> 1 <= w -> 1 <= h ->
+  simple_picture hdr running ->
+  into_width_and_height (d_format rp) = Some (w, h) -> plane_ok w h (d_luma rp) ->
+  plane_ok ((w + 1) / 2) ((h + 1) / 2) (d_cb rp) -> plane_ok ((w + 1) / 2) ((h + 1) / 2) (d_cr rp) -> d_chroma_w rp = (w + 1) / 2 ->
+  Forall (wf_full false v1) fms -> loop_short fms 0 (mpl * mbh) -> short_pad pad ->
+  pure_loop np running mpl levw fms st0 = Ok st' ->
+  exists pic pos',
+    reconstruct o last (Some rp) running0 r0 = Ok (pic, mkReader pad pos') /\ d_header pic = hdr /\
+    plane_ok w h (d_luma pic) /\ plane_ok ((w + 1) / 2) ((h + 1) / 2) (d_cb pic) /\ plane_ok ((w + 1) / 2) ((h + 1) / 2) (d_cr pic) /\
+    (forall x y, 0 <= x < w -> 0 <= y < h -> k <= x / 16 + (y / 16) * mpl -> at_ (d_luma pic) x y = at_ (d_luma rp) x y) /\
+    (forall x y, 0 <= x < (w + 1) / 2 -> 0 <= y < (h + 1) / 2 -> k <= x / 8 + (y / 8) * mpl ->
+       at_ (d_cb pic) x y = at_ (d_cb rp) x y /\ at_ (d_cr pic) x y = at_ (d_cr rp) x y).
+Proof. exact reconstruct_predicted_early_copies. Qed.
+
+(* the macroblock loop itself at an early end: it returns exactly what the macroblocks present produce and leaves the padding *)
+Theorem C03_early_end_loop : forall o np running mpl total levw pad,
+  let ipic := is_iframe (picture_type (d_header np)) in
+  let v1 := sorenson o && (match version (d_header np) with Some 1 => true | _ => false end) in
+  simple_picture (d_header np) running -> short_pad pad ->
+  forall fms fuel st pos, Forall (wf_full ipic v1) fms -> loop_short fms (zlength (l_types st)) total -> (length fms < fuel)%nat ->
+  l_reader st = mkReader (enc_fulls ipic v1 fms ++ pad) pos ->
+  exists pos', mb_loop fuel o np running mpl total levw st = rmap (pure_loop np running mpl levw fms st) (mkReader pad pos').
+Proof. exact mb_loop_early. Qed.
+
+
 (* from the bits of a predicted picture to the accuracy of every sample: each sample is within 0.632 of `target`: the
    prediction itself where nothing was coded, otherwise clip_0..255 (prediction + the exact residual, clipped to -256..255),
    the residual being the exact inverse DCT of the placed, dequantised coefficient matrix of the block at that position *)
@@ -173,3 +217,5 @@ Print Assumptions C03_chroma_vector_table.
 Print Assumptions C03_median.
 Print Assumptions C03_no_reference_is_an_error.
 Print Assumptions C03_predicted_picture_accurate.
+Print Assumptions C03_early_end_copies_reference.
+Print Assumptions C03_early_end_loop.
